@@ -45,7 +45,11 @@ func genMapsOnly(t *rapid.T, d int) map[string]interface{} {
 		case r < 8:
 			m[k] = nil
 		case r < 9:
-			m[k] = map[string]interface{}{}
+			if rapid.Bool().Draw(t, "xmlshaped") {
+				m[k] = map[string]interface{}{"#text": "old", "-id": "7"} // a simple element with attributes
+			} else {
+				m[k] = map[string]interface{}{}
+			}
 		case r < 10:
 			m[k] = float64(rapid.IntRange(0, 3).Draw(t, "f"))
 		default:
